@@ -32,6 +32,7 @@ pub fn take_path_flags() -> (bool, bool) {
 }
 
 /// H6: check limits on every engine iteration and let the `k`-th check (1-based) find the
-/// timeout (`kind == 0`) or the memory limit (`kind == 1`) exceeded.
+/// timeout (`kind == 0`) or the memory limit (`kind == 1`) exceeded; any other `kind` only forces
+/// the check interval to 1 and leaves the caller's limits in force.
 pub fn set_fire_at(v: Option<(usize, u8)>) { FIRE_AT.with(|c| c.set(v)); }
 pub fn fire_at() -> Option<(usize, u8)> { FIRE_AT.with(|c| c.get()) }
